@@ -10,6 +10,7 @@ NEGS_C10 = {"NEG_C10_LifoLocalQueue.cfg": ["C10_StartOrderRespectsSendOrder"],
             "NEG_C10_RunInlineOnSender.cfg": ["C10_OnOwnThread"],
             "NEG_C10_DupExecute.cfg": ["C10_AtMostOnce"],
             "NEG_C10_SpawnTrueWhenGone.cfg": ["C10_SpawnFalseWhenGone"],
+            "NEG_C10_RxDropAtThreadExit.cfg": ["C10_SpawnFalseWhenGone"],
             "NEG_C10_JoinEarly.cfg": ["C10_JoinAfterLoopEnd"],
             "NEG_C10_BlockOnInexact.cfg": ["C10_BlockOnOutput"]}
 
@@ -31,13 +32,15 @@ def run(ctx):
     ctx.cov["constants"] = {"model": "see tlc_runs", "driver": "1..3 arbiters (+ system arbiter), owner + 1..3 sender "
                             "threads with cloned handles, 2..6 commands each, bodies done/yield/pend/panic/busy/"
                             "self_spawn/self_stop_then_spawn (sent from the arbiter's own thread), plus scenarios with "
-                            "2-3 Systems hosted one after another by one OS thread (marker command per arbiter)"}
+                            "2-3 Systems hosted one after another by one OS thread (marker command per arbiter); every "
+                            "task that never completes on a worker arbiter owns a guard whose destructor (end of the loop "
+                            ".. exit of the thread) sends through its handle and through Arbiter::current()"}
     rt.flow(ctx, flavour="c10", tcfg="Trace_C10.cfg",
             nt_rule="a run is non-trivial when two sends to the same arbiter were ordered by real-time precedence and "
                     "the later one started (order), or a send started after a stop() call on its arbiter had ended "
                     "(afterStop), or after its arbiter's join had returned (afterGone); counted by TLC from the recorded "
                     "history at the End record of each run",
-            nontrivial=lambda s: s["order"] or s["afterStop"] or s["afterGone"])
+            nontrivial=lambda s: s["order"] or s["afterStop"] or s["afterGone"] or s.get("loopEndSeen"))
 
 
 def replay(ctx, path):
